@@ -244,6 +244,29 @@ def strip(t):
     return t
 
 
+_UNSIGNED = ("usize", "u8", "u16", "u32", "u64", "u128")
+
+
+def _unsigned_zero_test(key):
+    """('bin', op, a, b) with an unsigned constant 0 / 1 on one side -> (('bin','Eq', x, 0), same_polarity) or None"""
+    op, a, b = key[1], key[2], key[3]
+
+    def cst(t):
+        return t[1] if isinstance(t, tuple) and t[0] == "c" and isinstance(t[1], int) and str(t[2]) in _UNSIGNED else None
+    flip = {"Gt": "Lt", "Lt": "Gt", "Ge": "Le", "Le": "Ge"}
+    if cst(a) is not None and cst(b) is None:
+        op, a, b = flip[op], b, a
+    c = cst(b)
+    if c is None:
+        return None
+    zero = ("c", 0, b[2])
+    if (op, c) in (("Gt", 0), ("Ge", 1)):        # x > 0, x >= 1  <=>  x != 0
+        return (("bin", "Eq", a, zero), False)
+    if (op, c) in (("Lt", 1), ("Le", 0)):        # x < 1, x <= 0  <=>  x == 0
+        return (("bin", "Eq", a, zero), True)
+    return None
+
+
 class Exec:
     """Symbolic path enumerator for one root body (with inlining of directly called closures
     and of the functions named in `inline`)."""
@@ -484,6 +507,13 @@ class Exec:
             while isinstance(key, tuple) and key[0] == "un" and key[1] == "Not":
                 key = key[2]
                 v = 1 - v
+        # unsigned comparisons with the ends of the range are (in)equalities: `x > 0`, `x >= 1`, `0 < x` are `x != 0`;
+        # `x < 1`, `x <= 0` are `x == 0` - conditions are reported in the one form `x == 0` taken / not taken
+        if isinstance(key, tuple) and key[0] == "bin" and key[1] in ("Gt", "Ge", "Lt", "Le") and isinstance(v, int) and v in (0, 1):
+            nk = _unsigned_zero_test(key)
+            if nk is not None:
+                st.known[key] = v
+                key, v = nk[0], (v if nk[1] else 1 - v)
         st.known[key] = v
         if isinstance(v, int):
             _range_update(st, key, v)
@@ -1869,6 +1899,28 @@ def _model_iter_for_each(ex, body, st, bb, t, c, args, frame, cont, target, nt, 
     if cb is None:
         return
     full = (c.full or "") if c is not None else ""
+    if full.startswith("<std::option::IntoIter<"):
+        # `opt.into_iter().for_each(f)`: at most one item - `if let Some(x) = opt { f(x) }`
+        o = strip(it)
+        while isinstance(o, tuple) and o[0] == "call" and norm(o[1]).endswith("::into_iter") and o[2]:
+            o = strip(o[2][0])
+        kn = st.known.get(("disc", o))
+        for dv in ((kn,) if isinstance(kn, int) else (0, 1)):
+            s1 = st.fork() if not isinstance(kn, int) else st
+            s1.known[("disc", o)] = dv
+            s1.events.append(Event("cond", bb, frame, body, term=("disc", o), value=dv, exp=False, span=span, is_bool=False))
+            if dv == 0:
+                for r in cont(s1, ("c", "()", "()")):
+                    yield r
+            else:
+                item = ("field", "0", ("variant", "Some", o))
+                for (s2, ret, ex_) in _run_closure(ex, body, s1, bb, frame, cb, clos, [item], target, nt, span, "each"):
+                    if ex_ is not None:
+                        yield (s2, ex_, None)
+                        continue
+                    for r in cont(s2, ("c", "()", "()")):
+                        yield r
+        return
     ntgt = "<%s as std::iter::Iterator>::next" % _innermost_iter_type(full, it)
     rounds = max(1, ex.unroll)
 
